@@ -13,7 +13,7 @@
 From Coq Require Import List.
 Import ListNotations.
 From WB Require Import Base.Str Base.Json Model.Key Model.Consts Model.Store Model.Match Model.Subs Model.Entry Model.Core
-  Proofs.SubsFacts Proofs.MatchFacts Proofs.CoreFacts Proofs.C01Proof Proofs.C03Proof Proofs.StreamProof Proofs.StreamAll.
+  Proofs.SubsFacts Proofs.MatchFacts Proofs.CoreFacts Proofs.C01Proof Proofs.C03Proof Proofs.StreamProof Proofs.StreamAll Proofs.FoldProof.
 
 (* routing through the subscriber tree = the relation sub_match on the registered position *)
 Theorem C03_routing :
@@ -147,6 +147,32 @@ Theorem C03_silent_all :
 Proof. exact silent_all. Qed.
 Print Assumptions C03_silent_all.
 
+(* ---- the fold clause (Proofs/FoldProof.v) ----
+   [fold_evs F evs]: the key/value view a client keeps by applying pState events (keyValuePairs set, deleted remove);
+   [val_of s q]: the value stored at path q; [AgreeM sb m F]: on every regular key where the two matchers agree (that is
+   every key, except the key K itself for a pattern K/#: known finding F2) F holds the value of m if the subscription's
+   pattern matches the key and nothing otherwise -- which is what pget of the pattern returns. *)
+Theorem C03_snapshot_agrees :
+  forall s pat kvs, Inv s -> do_pget s pat = Ok kvs ->
+    forall sb, s_pat sb = kseg_parse pat -> AgreeM sb (val_of s) (fold_ev (fun _ => None) (EPValue kvs)).
+Proof. exact snapshot_agrees. Qed.
+Print Assumptions C03_snapshot_agrees.
+
+(* ... and stays so along every history of requests of every kind except publish, publish streams (which deliver a
+   value without storing it) and import *)
+Theorem C03_fold_is_pget :
+  forall os s sb F, s_pstate sb = true -> K s -> Registered s sb ->
+    Forall quiet_kind os -> Forall (foreign sb) os -> no_crash_run s os ->
+    AgreeM sb (val_of s) F ->
+    AgreeM sb (val_of (final s os)) (fold_evs F (stream (s_inst sb) s os)).
+Proof. exact fold_is_pget. Qed.
+Print Assumptions C03_fold_is_pget.
+
+Theorem C03_matchers_agree_without_multi :
+  forall P q, ~ In Multi P -> sub_match P q = store_match P q.
+Proof. exact matchers_agree. Qed.
+Print Assumptions C03_matchers_agree_without_multi.
+
 (* non-vacuity: a pattern subscription followed through a wildcard delete, an import, another client's
    subscription and session end with grave goods and last will *)
 Example C03_stream_all_nonvacuous :
@@ -161,10 +187,14 @@ Example C03_stream_all_nonvacuous :
   stream 0 s os = [EPValue [([97;47;98], JNull)]; EPValue [([97;47;99], JNull)];
                    EPDeleted [([97;47;98], JNull)]; EPDeleted [([97;47;99], JNull)];
                    EPValue [([97;47;100], JNull)]; EPDeleted [([97;47;100], JNull)]; EPValue [([97;47;119], JNum [49])]] /\
-  wanted_stream sb s os = stream 0 s os.
+  wanted_stream sb s os = stream 0 s os /\
+  (* the fold of snapshot and stream, on the keys below a/, is what pget a/# returns at the end *)
+  map (fold_evs (fold_ev (fun _ => None) (EPValue [])) (stream 0 s os)) [[97;47;98]; [97;47;99]; [97;47;100]; [97;47;119]] =
+    [None; None; None; Some (JNum [49])] /\
+  do_pget (final s os) [97;47;35] = Ok [([97;47;119], JNum [49])].
 Proof.
   cbv zeta. split; [vm_compute; now left|]. split; [repeat (apply Forall_cons; [cbn; try exact I; discriminate|]); apply Forall_nil|].
-  split; [vm_compute; repeat split; discriminate|]. split; vm_compute; reflexivity.
+  split; [vm_compute; repeat split; discriminate|]. repeat split; vm_compute; reflexivity.
 Qed.
 
 Example C03_stream_nonvacuous :
